@@ -984,6 +984,9 @@ def run(ctx):
     # R1.12: combination semantics of the applicators, as a truth table over sub-verdicts (sa/rules/applic.py)
     from .applic import rule_applicators
     rule_applicators(ctx, "R1.12", "verdict")
+    # R1.13: integers of any size are in this property's domain: multipleOf with an integer divisor decides by exact integer `%`
+    from .c09 import rule_integer_path
+    rule_integer_path(ctx, "R1.13")
     # R1.10: a keyword's verdict may depend on exactly the sibling names the draft gives it (necessary for spec agreement)
     from .c10 import rule_read_set
     rule_read_set(ctx, "R1.10")
